@@ -61,6 +61,7 @@ var checks = []Check{
 		Jobs: []Job{
 			{Pkg: "proc/redis", Scenarios: []string{"C13/filter"}, Shards: 8, QuickS: 90, ThoroughS: 300},
 			{Pkg: "proc/redis", Scenarios: []string{"C13/histories"}, Shards: 16, QuickS: 90, ThoroughS: 600},
+			{Pkg: "proc/redis", Scenarios: []string{"C13/concurrent"}, Shards: 16, QuickS: 60, ThoroughS: 600},
 		},
 	},
 	{
@@ -76,7 +77,10 @@ var checks = []Check{
 		Technique: "bounded-exhaustive enumeration of the command space on the real proxy stack under a controlled scheduler",
 		Rule:      "distinct = (name, letter case, argument count, strategy, clock step) combinations issued",
 		Assumptions: append([]string{"Redis 5.0 command table with write flags embedded in the harness (written from the redis-server 5.0 command table)", "mini Redis Cluster node logs"}, engineAssumptions...),
-		Jobs: []Job{{Pkg: "proc/redis", Scenarios: []string{"C14/commands"}, Shards: 12, QuickS: 120, ThoroughS: 300}},
+		Jobs: []Job{
+			{Pkg: "proc/redis", Scenarios: []string{"C14/commands"}, Shards: 12, QuickS: 120, ThoroughS: 300},
+			{Pkg: "proc/redis", Scenarios: []string{"C14/topology"}, Shards: 1, QuickS: 60, ThoroughS: 120},
+		},
 	},
 	{
 		ID: "C03", Title: "on a stable cluster the proxy behaves like a single Redis server", Level: "model_checking",
